@@ -2174,7 +2174,7 @@ func runNNSFamily(t *testing.T, prop string) {
 	nh, maxOps := 48, 34
 	switch prop {
 	case "C12":
-		nh, maxOps = 30, 32
+		nh, maxOps = 18, 32
 	}
 	if Tier() == "thorough" {
 		nh, maxOps = nh*10, 60
@@ -2326,7 +2326,7 @@ func runNNSFamily(t *testing.T, prop string) {
 		"Definition check_case (c : list ((nctx * nop) * val)) :=\n  run_case (nstep_obs (fun x => x) vname vdata sok readers) (ninit, []) 0 c.\n" +
 		"Definition M := Eval vm_compute in failures_from 0 (map check_case cases).\nPrint M.\n"
 	// several files (the driver evaluates them in parallel); each carries the whole pool
-	const chunk = 12
+	const chunk = 8
 	for k := 0; k*chunk < len(cases); k++ {
 		hi := (k + 1) * chunk
 		if hi > len(cases) {
